@@ -14,7 +14,7 @@ import common, enc, impl
 import segno
 
 TOP = ['theories/Props/C12.v', 'theories/Tie/TieTables.v', 'theories/Tie/TieRouteSave.v', 'theories/Tie/TieRouteSeq.v',
-       'theories/Tie/TieRouteCli.v', 'theories/Lemmas/CaseLemmas.v']
+       'theories/Tie/TieRouteCli.v', 'theories/Lemmas/CaseLemmas.v', 'theories/Tie/TieApiUri.v', 'theories/Tie/TieApiQr.v']
 RULE = ('symbols x all 13 output kinds x serializer option sets x routes: file name (lower / upper / mixed case extension), stream with kind=..., '
         'png/svg data URIs decoded, svg_inline, gunzipped .svgz, command line with the corresponding flags, terminal vs. no output, sequences '
         'saved to name.ext; byte comparison with the three timestamp fields masked')
@@ -74,7 +74,8 @@ def run(ctx):
         'svg': [{}, {'scale': 3, 'border': 1}, {'dark': 'darkblue', 'light': 'yellow'}, {'xmldecl': False, 'svgns': False, 'nl': False},
                 {'omitsize': True}, {'unit': 'mm', 'scale': 2}, {'title': 'T<&>', 'desc': 'D"'}, {'svgclass': 'c1', 'lineclass': 'c2', 'svgid': 'i1'},
                 {'draw_transparent': True, 'light': None, 'dark': '#123'}, {'svgversion': 1.1}, {'finder_dark': 'red', 'data_dark': 'green'}],
-        'png': [{}, {'scale': 4}, {'border': 0, 'dark': 'blue'}, {'light': None}, {'dpi': 300, 'scale': 2}, {'finder_dark': 'red', 'quiet_zone': 'yellow'}],
+        'png': [{}, {'scale': 4, 'compresslevel': 0}, {'border': 0, 'dark': 'blue', 'compresslevel': 3}, {'light': None, 'dpi': 150}, {'dpi': 300, 'scale': 2},
+                {'finder_dark': 'red', 'quiet_zone': 'yellow'}, {'compresslevel': 1, 'scale': 2, 'border': 1}],
         'eps': [{}, {'scale': 2, 'border': 2}, {'dark': 'red', 'light': '#eee'}],
         'pdf': [{}, {'scale': 3}, {'dark': '#00f', 'light': 'white', 'border': 1}],
         'txt': [{}, {'border': 0}], 'ans': [{}, {'border': 1}],
